@@ -62,9 +62,14 @@ class Prop:
                     payload, _ = gen.armor(bits)
                     cuts = sorted(rng.sample(range(1, len(payload)), n - 1))
                     # sequence ids 0-9 and the empty id (distinct slots, also 0 versus empty)
-                    seq = rng.choice(['0', '', str(len(parts) % 10), str(rng.randint(0, 9))])
+                    seq = rng.choice(['0', '', '1', '1', str(len(parts) % 10), str(rng.randint(0, 9))])
                     lines = gen.render(bits, seq=seq, chan=rng.choice('AB'), cuts=cuts)
-                    rng.shuffle(lines)
+                    if rng.random() < 0.5:
+                        rng.shuffle(lines)
+                    if rng.random() < 0.3:
+                        # an incomplete set: orphaned fragments stay behind in their slot (all front-ends must
+                        # still agree on what later messages in that slot look like)
+                        del lines[rng.randrange(len(lines))]
                     parts.append(lines)
                 elif r < 0.72:
                     parts.append([gen.gatehouse(d=rng.choice([1, 28, 31]), mo=rng.choice([1, 2, 12]))])
@@ -79,7 +84,33 @@ class Prop:
                                               b'!short', b'\\s:x*00\\!AIVDM,garbage', b'!AIVDM,1,1,,A,,0*26'])])
                 else:
                     parts.append([gen.tag_block(b's:only') + gen.render(gen.payload_bits(rng, 'MessageType27'))[0]])
-            seqs.append(('gen%d' % i, gen.random_interleaving(rng, parts)))
+            if i % 3 == 0:
+                # slot reuse: the sets one after the other (interleaving would put two sets into one slot at once)
+                seqs.append(('gen%d' % i, [l for p_ in parts for l in p_]))
+            else:
+                seqs.append(('gen%d' % i, gen.random_interleaving(rng, parts)))
+        # slot histories: several fragment sets one after the other in ONE (sequence id, channel) slot, some of
+        # them incomplete (the receiver missed fragments), so that leftovers of earlier sets are still around when a
+        # later set of another size arrives; all front-ends must agree on every later delivery
+        for i in range(60 if ctx.tier == 'quick' else 1500):
+            seq, chan = rng.choice(['1', '0', '', '7']), rng.choice('AB')
+            lines = []
+            for _ in range(rng.randint(2, 4)):
+                n = rng.randint(2, 4)
+                bits = gen.payload_bits(rng, 'MessageType8', length=rng.randint(120, 500))
+                payload, _ = gen.armor(bits)
+                cuts = sorted(rng.sample(range(1, len(payload)), n - 1))
+                frs = gen.render(bits, seq=seq, chan=chan, cuts=cuts)
+                r = rng.random()
+                if r < 0.35:
+                    keep = rng.sample(range(n), rng.randint(1, n - 1))       # only some fragments were received
+                    frs = [frs[j] for j in sorted(keep)]
+                elif r < 0.5:
+                    rng.shuffle(frs)
+                lines += frs
+                if rng.random() < 0.3:
+                    lines.append(gen.render(gen.payload_bits(rng, 'MessageType1'), chan=chan)[0])
+            seqs.append(('slot%d' % i, lines))
         return seqs, rng
 
     def run(self, ctx):
@@ -132,6 +163,17 @@ class Prop:
         # decode() of a message's parts agrees with decoding the delivered sentence
         outs = ctx.corr(oneshot_ops, impl.step, 'decode')
         for (name, dl), o, op in zip(oneshot_meta, outs, oneshot_ops):
+            try:
+                heads = [bytes.fromhex(x).split(b'\\')[-1].split(b',')[1:3] for x in op.split()[2:]]
+                consistent = len({h[0] for h in heads}) == 1 and \
+                    sorted(int(h[1]) for h in heads) == list(range(1, int(heads[0][0]) + 1))
+            except (ValueError, IndexError):
+                consistent = False
+            if not consistent:
+                # a "message" the readers glued together from leftovers of incomplete sets: decode() of such
+                # parts is outside the property (the correspondence with the model still covers it)
+                ctx.count('oneshot:inconsistent-parts-skipped')
+                continue
             exp = impl.step('frombits %s' % dl[2]) if dl[1] != '-' else 'ERR:MissingPayloadException'
             if o != exp:
                 ctx.fail('decode() of the parts differs from decoding the sentence the readers deliver',
